@@ -1,5 +1,7 @@
 """C04: key switching keeps the message and adds at most the error of its key parameterisation."""
+import json
 from checks.rlwecore import run_family
+from checks.ringpack import run_ringpack
 
 
 def run(ctx):
@@ -8,4 +10,10 @@ def run(ctx):
         "a key without P is only exercised with a base-2 decomposition (without, the added error is of the order of a whole prime: recorded in DESIGN.md as outside the contract)",
         "compressed keys: Expand on the key and on a serialised copy agree bit for bit, a second Expand changes nothing, and the expanded key then switches correctly",
     ]
-    run_family(ctx, 'ksw')
+    fam = None
+    if ctx.replay:
+        fam = json.load(open(ctx.replay)).get('family')
+    if fam in (None, 'rlwecore'):
+        run_family(ctx, 'ksw')
+    if fam in (None, 'ringpack'):
+        run_ringpack(ctx)
